@@ -1,4 +1,5 @@
 import AikenVerif.Lemmas.CekNoPanic
+import AikenVerif.Lemmas.CekTerminates
 /-!
 # C10 — evaluation never crashes: property theorems (evaluator part)
 
@@ -82,6 +83,66 @@ theorem cek_no_panic (cfg : Config) (fuel : Nat) (budget : ExBudget) (t : NTerm)
       simp only
       exact runFrom_no_panic cfg fuel a (.compute [] [] t) (by simp [State.wf, Value.wfList])
         (by simp [State.wt, Value.wtList, ht]) (by simp [AcctWF, hb, initCounts])
+
+/-- **C10 (termination)**: under ANY finite budget — and any slippage, semantics variant, term (open,
+ill-typed, any size) — the run halts: some number of machine steps is enough.  Hypothesis: every
+machine step is priced at one CPU unit or more and no builtin has a negative price (`PosCosts`; the
+step half is the decidable `stepsPositive`, answered by the driver for the cost models of the real
+evaluator).  The measure is `cpu left · (slippage+1) + (slippage − steps counted and unspent)`, then
+the depth of the context between two `compute` transitions. -/
+theorem runFrom_terminates (cfg : Config) (hp : PosCosts cfg.costs cfg.sem) (a : Acct) (s : State)
+    (hl : a.counts.length = 10) : ∃ fuel, runFrom cfg fuel a s ≠ .outOfFuel :=
+  runFrom_halts cfg hp _ _ a s rfl hl rfl
+
+theorem cek_terminates (cfg : Config) (hp : PosCosts cfg.costs cfg.sem) (budget : ExBudget) (t : NTerm) :
+    ∃ fuel, run cfg fuel budget t ≠ .outOfFuel := by
+  unfold run
+  cases hsu : cfg.costs.machineCost .startUp with
+  | none => exact ⟨0, by intro h; cases h⟩
+  | some c =>
+    simp only
+    rcases spendBudget_cases' ⟨budget, initCounts⟩ c with hsp | ⟨a, hsp, hb⟩
+    · exact ⟨0, by rw [hsp]; intro h; cases h⟩
+    · obtain ⟨fuel, hf⟩ := runFrom_terminates cfg hp a (.compute [] [] t) (by rw [hb]; rfl)
+      exact ⟨fuel, by rw [hsp]; exact hf⟩
+
+/-- **C10 (evaluator), both halves**: evaluation of any term with well-typed constants under a finite
+budget ENDS, and ends with a term, an evaluation error or budget exhaustion (or, model only, at an
+unmodelled cryptographic builtin) — never a panic, never an endless run. -/
+theorem cek_total (cfg : Config) (hp : PosCosts cfg.costs cfg.sem) (budget : ExBudget) (t : NTerm)
+    (ht : Term.wt t = true) :
+    ∃ fuel, (∃ a r, run cfg fuel budget t = .done a r) ∨ run cfg fuel budget t = .fail ∨
+      run cfg fuel budget t = .oob ∨ run cfg fuel budget t = .unmodelled := by
+  obtain ⟨fuel, hf⟩ := cek_terminates cfg hp budget t
+  have hp' := cek_no_panic cfg fuel budget t ht
+  refine ⟨fuel, ?_⟩
+  cases h : run cfg fuel budget t with
+  | done a r => exact Or.inl ⟨a, r, rfl⟩
+  | fail => exact Or.inr (Or.inl rfl)
+  | oob => exact Or.inr (Or.inr (Or.inl rfl))
+  | unmodelled => exact Or.inr (Or.inr (Or.inr rfl))
+  | panic => exact absurd h hp'
+  | outOfFuel => exact absurd h hf
+
+/-- the step half of `PosCosts` is decidable on a concrete cost model -/
+theorem posCosts_of_check (cm : CostModel) (sem : Sem) (h : stepsPositive cm = true)
+    (hb : ∀ b args c, builtinCost cm sem b args = .ok c → ExBudget.le .zero c) : PosCosts cm sem :=
+  posCosts_of cm sem h hb
+
+/-- non-vacuity: a cost model with the ledger's step prices passes the check, one with a free step
+does not; and the divergent term `(λx. x x) (λx. x x)` — which needs unbounded fuel without a
+budget — is stopped by budget exhaustion -/
+example :
+    let cm : CostModel := ⟨[("startup", ⟨100, 100⟩), ("constant", ⟨100, 16000⟩), ("apply", ⟨100, 16000⟩),
+      ("lambda", ⟨100, 16000⟩), ("var", ⟨100, 16000⟩), ("delay", ⟨100, 16000⟩), ("force", ⟨100, 16000⟩),
+      ("builtin", ⟨100, 16000⟩), ("constr", ⟨100, 16000⟩), ("case", ⟨100, 16000⟩)], []⟩
+    let cm0 : CostModel := ⟨[("startup", ⟨100, 100⟩), ("constant", ⟨100, 16000⟩), ("apply", ⟨100, 0⟩),
+      ("lambda", ⟨100, 16000⟩), ("var", ⟨100, 16000⟩), ("delay", ⟨100, 16000⟩), ("force", ⟨100, 16000⟩),
+      ("builtin", ⟨100, 16000⟩), ("constr", ⟨100, 16000⟩), ("case", ⟨100, 16000⟩)], []⟩
+    let w : NTerm := .lam ⟨"x", 0⟩ (.app (.var ⟨"x", 1⟩) (.var ⟨"x", 1⟩))
+    stepsPositive cm = true ∧ stepsPositive cm0 = false ∧
+    run ⟨cm, .E, 5⟩ 40 ⟨1000, 100000⟩ (.app w w) = .oob := by
+  exact ⟨rfl, rfl, rfl⟩
 
 /-- reading back the final value is a total function (no fuel, no failure case) -/
 theorem discharge_total (v : Value) : ∃ t, valueAsTerm v = t := ⟨_, rfl⟩
